@@ -124,6 +124,36 @@ def run_gossip(work, tier, seed, verdict):
             "abstract_envelopes_without_concrete_counterpart": skipped, "rejected_lines": len(rejs)}
 
 
+def quorum_use_sites(work, tier, seed, verdict):
+    """C07 (called by chk_format): the threshold at its use sites in the node - handleInboundSignedVAAWithQuorum and the
+    publication decision of handleObservation - for every set size 1..19, decided by Trace_Processor like every other
+    handler call.  Returns coverage for the evidence file."""
+    sizes = list(range(1, 20)) * (1 if tier == "quick" else 6)
+    scs = fp.quorum_site_scenarios(seed, sizes)
+    try:
+        lines, wall = fp.replay(work, scs, "C07S")
+    except fp.Crash as c:
+        verdict.add("usesite/" + c.sig, {"why": "the processor died on a quorum use-site history", "tail": c.tail[-3000:]})
+        return {"histories": len(scs), "crashed": True}
+    rejs, r = fp.validate(work, lines, "C07S")
+    print("quorum use sites: %d histories (set sizes 1..19, %d handler calls) on the real processor in %.1fs; trace validation %d states, %d rejected line(s)"
+          % (len(scs), len(lines), wall, r["distinct"], len(rejs)))
+    byn = {(ln["t"], ln["n"]): ln for ln in lines}
+    for rj in rejs:
+        ln = byn.get((rj["t"], rj["n"]), {"ev": rj.get("ev"), "a": {}, "s": {}})
+        props, comps = fp.attribute(rj, ln)
+        sc = scs[rj["t"] - 1] if 0 < rj["t"] <= len(scs) else None
+        nkeys = len(sc["steps"][0]["a"]["set"]["keys"]) if sc else -1
+        verdict.add("usesite/n=%d/%s" % (nkeys, fp.signature(rj, ln, comps)),
+                    {"line": ln, "why": rj.get("why"), "spec_state": rj.get("spec"), "components": sorted(comps), "scenario": sc})
+    inbound = Counter()
+    for ln in lines:
+        if ln["ev"] == "InboundVAA":
+            inbound["stored" if ln["s"].get("db") and ln["a"]["w"]["id"] in ln["s"]["db"] else "refused"] += 1
+    return {"histories": len(scs), "handler_calls": len(lines), "trace_spec_states": r["distinct"], "rejected": len(rejs),
+            "inbound_vaas": dict(inbound), "published": sum(1 for ln in lines for o in ln["s"].get("out", []) if o["kind"] == "vaa")}
+
+
 def crashed(prop, tier, c, t0, mc_states, mc_trans, n):
     """The whole test process died from a panic in the package under test (typically in a goroutine the code itself
     spawned, which no recover() of the harness can reach).  For C13 that is the violation itself; the other
